@@ -271,10 +271,28 @@ def r4(db, rep):
                     k_ = facts.cval(other)
                     # which edge throws?
                     blk = [b for b in g.blocks.values() if b.get("cond") is not None and contains_node(g.idx.get(b["cond"]), p)]
+                    flip = False
+                    if not blk:
+                        # the comparison is kept in a boolean local and tested later (`const bool parsed = ...; if (!parsed)`)
+                        from vlib import cond as _cond
+                        q_ = parent.get(p["id"])
+                        while q_ is not None and q_["k"] in ("ImplicitCastExpr", "ParenExpr", "ExprWithCleanups"):
+                            q_ = parent.get(q_["id"])
+                        if q_ is not None and q_["k"] == "VarDecl" and q_.get("var") in facts.single_assign(f):
+                            for b_ in g.blocks.values():
+                                c_ = g.idx.get(b_["cond"]) if b_.get("cond") is not None else None
+                                if c_ is None or len(b_["s"]) != 2:
+                                    continue
+                                n0, neg = _cond.peel(c_)
+                                if n0["k"] == "DeclRefExpr" and n0.get("var") == q_["var"]:
+                                    blk = [b_]
+                                    flip = neg
                     if blk:
                         b = blk[0]
                         t_throw = leads_to_throw(g, b["s"][0], f)
                         f_throw = leads_to_throw(g, b["s"][1], f)
+                        if flip:
+                            t_throw, f_throw = f_throw, t_throw
                         cond_true_means = ("==%s" % k_) if p["op"] == "==" else ("!=%s" % k_)
                         if p["op"] == "==" and k_ == 1 and f_throw and not t_throw:
                             verdict = "success only when inet_pton returned 1; otherwise throws"
@@ -530,7 +548,16 @@ def r6(db, rep):
                     if a0["k"] == "UnaryOperator" and a0.get("op") == "++" and facts.cval(b) is not None:
                         cands.append((x, a0, int(facts.cval(b)) & 0xffffffff))
         if len(cands) != 1:
-            rep.analysis_broken("increment(IPv4Address&): the wrap test `++v == C` was not recognised (%d candidates)" % len(cands))
+            # not written as `++v == C`: the function is EXECUTED on boundary values (the address is its network-order word,
+            # the byte-order helpers swap, IPv4Address(x) / the conversion back are the identity on that word)
+            verdict = run_ipv4_step(db, f, +1)
+            if verdict[0] == "unknown":
+                rep.analysis_broken("increment(IPv4Address&): the wrap test `++v == C` was not recognised (%d candidates) and the function is "
+                                    "outside the finite evaluator: %s" % (len(cands), verdict[1]))
+            elif verdict[0] == "bad":
+                rep.violation("R6-successor", key, facts.loc(f), verdict[1])
+            else:
+                rep.ok("R6-successor", key, facts.loc(f), verdict[1])
         else:
             x, inc, c = cands[0]
             want = 0xffffffff if inc.get("postfix") else 0
@@ -575,19 +602,110 @@ def r6(db, rep):
                         rep.analysis_broken("%s::operator==: %s" % (short, e))
                         continue
                 (rep.ok if ok else rep.violation)("R6-successor", short + "::operator==", facts.loc(f), why)
+            if f.get("qual", "").endswith("operator!="):
+                # the loop condition of every range-for: the exact negation of operator== (delegating to it, or written out)
+                from vlib import formula
+                rets = [x for x in facts.fn_nodes(f) if x["k"] == "ReturnStmt" and x.get("c")]
+                ok, why = False, "operator!= is not a single return"
+                if len(rets) == 1:
+                    try:
+                        atoms, table = formula.expr_table(f, rets[0]["c"][0])
+                        if len(atoms) == 1 and "this" in atoms[0] and " == " in atoms[0]:
+                            ok = all(res == (not vals[0]) for vals, res in table.items())
+                            why = "the negation of operator==" if ok else "operator!= is not the negation of operator=="
+                        else:
+                            role = {}
+                            for a in atoms:
+                                if a.count("reached_end_") == 2:
+                                    role[a] = "flag"
+                                elif a.count("address_") == 2:
+                                    role[a] = "addr"
+                            if sorted(role.values()) != ["addr", "flag"] or len(atoms) != 2:
+                                why = "operator!= must be the negation of operator== (address and wrap flag), it tests %s" % atoms
+                            else:
+                                ok = all(res == (not all(vals)) for vals, res in table.items())
+                                why = "different iff the address or the wrap flag differs" if ok else \
+                                    "operator!= is not the negation of operator==: a range-for over the range stops early or never"
+                    except Exception as e:
+                        rep.analysis_broken("%s::operator!=: %s" % (short, e))
+                        continue
+                (rep.ok if ok else rep.violation)("R6-successor", short + "::operator!=", facts.loc(f), why)
             is_end_ctor = f.get("kind") == "ctor" and len(f["params"]) == 2
             is_preinc = f.get("qual", "").endswith("operator++") and len(f["params"]) == 0
             if is_end_ctor or is_preinc:
-                sets = [x for x in facts.fn_nodes(f) if x["k"] == "BinaryOperator" and x.get("op") == "=" and
+                # (value stored, in the body or in the member initialiser list - which runs in declaration order, address_
+                # first: the extractor keeps that order in `inits`)
+                sets = [x["c"][1] for x in facts.fn_nodes(f) if x["k"] == "BinaryOperator" and x.get("op") == "=" and
                         this_member(x["c"][0]) == "reached_end_"]
+                inits = f.get("inits", [])
+                for k_, i_ in enumerate(inits):
+                    if i_.get("member") == "reached_end_" and i_.get("written") and any(j_.get("member") == "address_" for j_ in inits[:k_]):
+                        sets.append(i_["e"])
                 good = [x for x in sets if any(y["k"] == "CallExpr" and y.get("cname") == "increment" and
-                                               any(this_member(z) == "address_" for z in facts.walk(y)) for y in facts.walk(x["c"][1]))]
+                                               any(this_member(z) == "address_" for z in facts.walk(y)) for y in facts.walk(x))]
                 key = short + ("::ctor(end)" if is_end_ctor else "::operator++")
                 if good and len(good) == len(sets):
                     rep.ok("R6-successor", key, facts.loc(f), "reached_end_ = increment(address_)")
                 else:
                     rep.violation("R6-successor", key, facts.loc(f),
                                   "the wrap flag is not taken from increment(address_): the end sentinel and the running iterator can disagree")
+
+
+def run_ipv4_step(db, f, step):
+    from vlib import ieval
+    pv = f["params"][0]["var"]
+
+    def bswap(v):
+        v &= 0xffffffff
+        return ((v & 0xff) << 24) | ((v & 0xff00) << 8) | ((v >> 8) & 0xff00) | (v >> 24)
+
+    def make_tf(f0):
+        def tf(e, env):
+            fn_ = env.get("__fn__") or f0
+            k = e["k"]
+            if k == "CallExpr" and e.get("cname") in ("be_to_host", "host_to_be") and len(e["c"]) == 2:
+                return bswap(ieval.ev(fn_, e["c"][1], env))
+            if k == "CXXMemberCallExpr" and (e.get("cname") or "").startswith("operator ") and e["c"] and e["c"][0].get("c"):
+                return ieval.ev(fn_, e["c"][0]["c"][0], env)
+            if k in ("CXXConstructExpr", "CXXTemporaryObjectExpr", "CXXFunctionalCastExpr") and "IPv4Address" in ((facts.ty(fn_, e) or {}).get("s") or ""):
+                args = [x for x in e.get("c", []) if x is not None]
+                if len(args) == 1:
+                    return ieval.ev(fn_, args[0], env) & 0xffffffff
+                if not args:
+                    return 0
+            if k in ("MaterializeTemporaryExpr", "CXXBindTemporaryExpr", "ExprWithCleanups") and e.get("c"):
+                return ieval.ev(fn_, e["c"][0], env)
+            return None
+        return tf
+    tf = make_tf(f)
+
+    def on_effect(kind, node, st):
+        for x in facts.walk(node):
+            if x["k"] == "CXXOperatorCallExpr" and x.get("op") == "=" and len(x["c"]) == 3:
+                l = facts.strip_all(x["c"][1])
+                if l["k"] == "DeclRefExpr" and l.get("var") == pv:
+                    st[pv] = ieval.ev(f, x["c"][2], st) & 0xffffffff
+                    return
+    try:
+        for V in (0, 1, 0xff, 0x100, 0xffff, 0x10000, 0xffffff, 0x1000000, 0x12345678, 0x7fffffff, 0x80000000, 0xfffffffe, 0xffffffff):
+            fin = {}
+            eff = ieval.trace(f, f["body"], {"__termfn2__": tf, "__db__": db, pv: bswap(V)}, final=fin, on_effect=on_effect)
+            rets = [n_ for k_, n_ in eff if k_ == "return"]
+            if not rets or not rets[0].get("c"):
+                return ("unknown", "no value returned")
+            flag = bool(ieval.ev(f, rets[0]["c"][0], fin))
+            got = bswap(fin.get(pv))
+            want = (V + step) & 0xffffffff
+            if got != want:
+                return ("bad", "from %s the function steps to 0x%08x, not to 0x%08x" % (hex(V), got, want))
+            wrapped = (V == 0xffffffff) if step > 0 else (want == 0)
+            if flag != wrapped:
+                return ("bad", "from 0x%08x the wrap flag is %s: it must be true exactly when the 32-bit value wrapped to 0 (like the "
+                               "byte-wise increment of IPv6 / hardware addresses); end() and begin() of ranges touching "
+                               "255.255.255.255 become indistinguishable otherwise" % (V, flag))
+    except ieval.Unknown as e:
+        return ("unknown", str(e))
+    return ("ok", "executed on 13 boundary values: successor exact, flag true exactly on the wrap to 0")
 
 
 def this_member(n):
